@@ -1147,15 +1147,31 @@ func (x *Explorer) inlineDef(o *types.Var) ast.Expr {
 	x.inlBusy[o] = true
 	defer delete(x.inlBusy, o)
 	var res ast.Expr
-	if !x.unstable[o] {
+	if !x.unstable[o] && !x.isResult(o) {
 		if defs := LocalDefs(x.Fn, o); len(defs) == 1 && defs[0] != nil {
-			if _, isParam := IsParam(x.Fn, o); !isParam && x.immutable(defs[0], 0) {
-				res = defs[0]
+			// constants are not inlined: `done = true` must stay a fact about `done`
+			if tv, ok := x.Fn.Info().Types[defs[0]]; !(ok && tv.Value != nil) {
+				if _, isParam := IsParam(x.Fn, o); !isParam && x.immutable(defs[0], 0) {
+					res = defs[0]
+				}
 			}
 		}
 	}
 	x.inl[o] = res
 	return res
+}
+
+// isResult: o is a named result of the function (it has an implicit zero-value definition)
+func (x *Explorer) isResult(o *types.Var) bool {
+	if x.Fn.Sig == nil {
+		return false
+	}
+	for i := 0; i < x.Fn.Sig.Results().Len(); i++ {
+		if x.Fn.Sig.Results().At(i) == o {
+			return true
+		}
+	}
+	return false
 }
 
 func (x *Explorer) immutable(e ast.Expr, depth int) bool {
